@@ -270,6 +270,10 @@ struct Tracee {
     parked: Option<Call>,
     crash_at: Option<usize>,
     fault_at: Option<(usize, i64)>,
+    /// persistent failure: every in-operation call of this name fails with this errno
+    fault_all: Option<(String, i64)>,
+    /// calls performed inside the current operation (a bound turns an endless retry loop into a "stuck" event)
+    calls_in_op: usize,
     ops_done: usize,
     callnames: Vec<String>,
     own_temps: std::collections::HashSet<String>, // canonical "dir/name" of temp files this tracee created
@@ -1003,6 +1007,8 @@ enum Adv {
 /// Lets tracee `t` run: completes the parked call (if any), then continues up
 /// to the entry of its next decision point (sched mode) or to its end.
 static ALLPOINTS: std::sync::atomic::AtomicBool = std::sync::atomic::AtomicBool::new(false);
+/// bound on the system calls of one operation (job field "op_call_limit"; the default is far above any real operation here)
+static OP_CALL_LIMIT: std::sync::atomic::AtomicUsize = std::sync::atomic::AtomicUsize::new(200_000);
 /// replaying a model behaviour: the application's own calls inside an operation are scheduling steps too
 static FOLLOWING: std::sync::atomic::AtomicBool = std::sync::atomic::AtomicBool::new(false);
 
@@ -1045,6 +1051,28 @@ fn advance(t: &mut Tracee, ctx: &mut RunCtx, sched: bool, stop_after_ret: bool) 
             }
             let mut injected: Option<i64> = None;
             if counted {
+                t.calls_in_op += 1;
+                if t.calls_in_op > OP_CALL_LIMIT.load(std::sync::atomic::Ordering::Relaxed) {
+                    // the operation does not come back: report it and stop the participant
+                    let ev = json!({"e": "stuck", "p": t.part, "opi": t.opi, "api": t.api, "steps": t.calls_in_op, "call": call.name});
+                    ctx.emit(ev);
+                    unsafe { libc::kill(pid, libc::SIGKILL) };
+                    loop {
+                        if let Stop::Exited = wait_stop(pid) {
+                            break;
+                        }
+                    }
+                    t.alive = false;
+                    return Adv::Crashed;
+                }
+                if let Some((name, errno)) = &t.fault_all {
+                    if call.name == name && (t.phase == "lib" || t.phase == "cb") {
+                        let mut regs = get_regs(pid);
+                        regs.orig_rax = u64::MAX; // skip the call
+                        set_regs(pid, &regs);
+                        injected = Some(*errno);
+                    }
+                }
                 if let Some((at, errno)) = t.fault_at {
                     if at == t.nrec {
                         let mut regs = get_regs(pid);
@@ -1196,6 +1224,7 @@ fn record_exit(t: &mut Tracee, ctx: &mut RunCtx, call: &Call, rv: i64, injected:
                     return false; // phases are not events of their own
                 }
                 "call" => {
+                    t.calls_in_op = 0;
                     t.opi = rec["opi"].as_i64().unwrap_or(0);
                     t.api = rec["api"].as_str().unwrap_or("").to_string();
                     t.world = rec["world"].as_bool().unwrap_or(false);
@@ -1511,6 +1540,7 @@ fn run_stage(stage: &Value, ctx: &mut RunCtx, actor: &str, job: &Value, strategy
     // "allpoints": every library call is a scheduling step (a peer can be frozen between ANY two of its calls)
     ALLPOINTS.store(stage["allpoints"].as_bool().unwrap_or(false), std::sync::atomic::Ordering::Relaxed);
     FOLLOWING.store(job["follow"].is_array(), std::sync::atomic::Ordering::Relaxed);
+    OP_CALL_LIMIT.store(job["op_call_limit"].as_u64().unwrap_or(200_000) as usize, std::sync::atomic::Ordering::Relaxed);
     let mut tracees: Vec<Tracee> = Vec::new();
     for (i, p) in parts.iter().enumerate() {
         let mut spec = subst(p, &top);
@@ -1542,6 +1572,8 @@ fn run_stage(stage: &Value, ctx: &mut RunCtx, actor: &str, job: &Value, strategy
             parked: None,
             crash_at: p["crash_at"].as_u64().map(|x| x as usize),
             fault_at: p["fault_at"].as_u64().map(|x| (x as usize, errno_of_name(p["fault_errno"].as_str().unwrap_or("EIO")))),
+            fault_all: p["fault_all"]["call"].as_str().map(|c| (c.to_string(), errno_of_name(p["fault_all"]["errno"].as_str().unwrap_or("EIO")))),
+            calls_in_op: 0,
             ops_done: 0,
             callnames: Vec::new(),
             own_temps: std::collections::HashSet::new(),
